@@ -144,7 +144,8 @@ def run(ids, a):
                     lines = c.stdout.splitlines()
                     viol = [ln for ln in lines if ln.startswith('VIOLATION')]
                     heads = [ln[:400] for ln in lines if ln.startswith('--- ')]
-                    res.setdefault(sid, {}).setdefault('checks', {})[p] = {
+                    slot = 'checks' if a.seed is None else f'checks_seed_{a.seed}'
+                    res.setdefault(sid, {}).setdefault(slot, {})[p] = {
                         'rc': c.returncode, 'violation_lines': len(viol), 'first': heads[:3],
                         'tier': a.tier, 'scale': a.scale, 'seed': a.seed,
                         'wall_s': round(time.time() - t0, 1),
@@ -186,6 +187,13 @@ def report(ids, a):
                                 for p, c in sorted(checks.items())}
         caught = sorted(p for p, c in checks.items() if c['rc'] == 1)
         meta['caught_by'] = caught
+        # the property's own quick check under other VERIF_SEED values (robustness of detection)
+        own_p = meta['property']
+        by_seed = {'0': (checks.get(own_p) or {}).get('rc')}
+        for k, v in sorted(r.items()):
+            if k.startswith('checks_seed_') and own_p in v:
+                by_seed[k[len('checks_seed_'):]] = v[own_p]['rc']
+        meta['own_check_exit_by_seed'] = by_seed
         json.dump(meta, open(os.path.join(d, 'meta.json'), 'w'), indent=1, ensure_ascii=False)
         own = checks.get(meta['property'], {})
         rows.append((sid, meta['property'], meta.get('summary', '')[:110].replace('|', '/'),
